@@ -4,6 +4,7 @@ CONSTANTS
   MaxFaults = 2
   MaxRogue = 1
   FixUnknown = TRUE
+  CtxWriteCloses = FALSE
 SPECIFICATION Spec
 ACTION_CONSTRAINT Emit
 CHECK_DEADLOCK FALSE
